@@ -29,16 +29,17 @@ def targets(ctx):
     c310 = corpus(opts=("typing.310",))
     schema = c.schema
     adapters = {}
+    _enum_as = ["member"]
 
-    def adapter_for(tz):
-        if tz not in adapters:
-            adapters[tz] = BPAdapter(schema, tz_offset_min=tz)
-        return adapters[tz]
+    def adapter_for(tz, enum_as="member"):
+        if (tz, enum_as) not in adapters:
+            adapters[(tz, enum_as)] = BPAdapter(schema, tz_offset_min=tz, enum_as=enum_as)
+        return adapters[(tz, enum_as)]
 
     @collecting
     def clauses(out, name, tree, proto_names, variant="default", tz=0, route="kwargs"):
         cls = (c310 if variant == "typing.310" else (corpus(opts=("pydantic_dataclasses",)) if variant == "pydantic" else c)).bp(name)
-        adapter = adapter_for(tz)
+        adapter = adapter_for(tz, _enum_as[0])
         mi = schema.msg(f"ks.{name}")
         want = norm(schema, mi, tree)
         # betterproto -> reference
@@ -78,6 +79,7 @@ def targets(ctx):
         return f
 
     def ev(case):
+        _enum_as[0] = case.get("enum_as", "member")
         name, tree, pn = case["msg"], case["tree"], case.get("proto_names", False)
         mi = schema.msg(f"ks.{name}")
         variant, tz, route = case.get("variant", "default"), case.get("tz", 0), case.get("route", "kwargs")
@@ -113,6 +115,8 @@ def targets(ctx):
         case["variant"] = draw(st.sampled_from(["default", "default", "typing.310", "pydantic"]))
         case["tz"] = draw(st.sampled_from([0, 0, 330, -480, 60, 840]))
         case["route"] = draw(st.sampled_from(["kwargs", "kwargs", "kwargs", "setattr", "lazy", "kwargs_multi", "kwargs_multi"]))
+        # enum values are handed over as members of the field's enum, as bare ints, or as NAMED members of another enum class
+        case["enum_as"] = draw(st.sampled_from(["member", "member", "int", "foreign"])) if case["variant"] != "pydantic" else "member"
         if case["variant"] == "pydantic" and case["route"] == "kwargs_multi":
             case["route"] = "kwargs"  # (the pydantic classes validate at most one member per group in the constructor)
         return case
